@@ -369,6 +369,14 @@ def r5_count_key(ctx, prog):
 def run(ctx):
     prog = ctx.mir("main")
     rules = [r1_collector(ctx), r2_union(ctx, prog), r3_conflicts(ctx), r4_builder(ctx), r5_count_key(ctx, prog)]
+    # the arguments are collected `after foreign-key substitution`: the substitution clause of C06.R0 (a supplied argument
+    # replaces its variable wherever it sits, formatted or not; decided by rules/fkeval.py)
+    from rules import c06
+    from rules.common import borrow
+    k0, _ok, _why = c06.r0_substitution(ctx)
+    rules.append(borrow(k0, "C08.R6", "arguments are collected from the value after foreign-key substitution",
+                        "`the union, over all locales, of those occurring in that key's value after foreign-key substitution`: a variable that "
+                        "a `$t(.., {args})` supplied but substitution left in place is still demanded from the caller", only=r"populate", floor=1))
     if ctx.tier == "thorough":
         from rules import witness
         rules.append(witness.rule(ctx))
